@@ -191,6 +191,37 @@ def op(name):
     return deco
 
 
+@op('ctor')
+def _ctor(pool, s):
+    """library constructors: a new object every time, with the documented value, whatever earlier results went through"""
+    import scikit_tt.tensor_train as ttm
+    dims = list(pool.dims())
+    d = len(dims)
+    k = s['k'] % 5
+    if k == 0:
+        t, want = ttm.eye(dims), np.eye(int(np.prod(dims)))
+    elif k == 1:
+        t, want = ttm.ones(dims, [1] * d), np.ones((int(np.prod(dims)), 1))
+    elif k == 2:
+        t, want = ttm.zeros(dims, [1] * d), np.zeros((int(np.prod(dims)), 1))
+    elif k == 3:
+        t, want = ttm.uniform(dims), None
+    else:
+        idx = [s['j'] % m for m in dims]
+        t = ttm.unit(dims, idx)
+        want = np.zeros(dims)
+        want[tuple(idx)] = 1
+        want = want.reshape(-1, 1)
+    for it in pool.items:
+        if it['t'] is t:
+            raise Violation('sibling_result_changed', 'a constructor handed back the live object created at step %d' % it['born'])
+    if want is not None:
+        got = dense.matrix(t.cores)
+        if got.shape != want.shape or np.max(np.abs(got - want)) > 1e-12:
+            raise Violation('sibling_result_changed', 'constructor (kind %d) does not return its documented value any more' % k)
+    return [t], {}
+
+
 @op('new_vec')
 def _new_vec(pool, s):
     pool.new_vec(layout=['C', 'F', 'T'][s['k'] % 3], cplx=s['flag'], ranks=[1] * (pool.d + 1) if s['j'] % 3 == 0 else None)
@@ -599,7 +630,7 @@ def _arr(pool, s):
 
 OP_NAMES = sorted(OPS)
 WEIGHTED = (['add', 'scalar', 'matmul', 'tensordot', 'tensordot', 'concatenate', 'transpose', 'copy', 'diag', 'squeeze', 'qtt', 'svd', 'svd',
-             'rank_tensordot', 'readout', 'residual', 'new_vec', 'new_op'] * 2 + ['ortho'] * 8 + ['poke'] * 4 +
+             'rank_tensordot', 'readout', 'residual', 'new_vec', 'new_op', 'ctor'] * 2 + ['ortho'] * 8 + ['poke'] * 4 +
             ['sle', 'evp', 'evp', 'power', 'euler', 'euler', 'errors', 'adaptive', 'splitting', 'tdvp', 'tdvp', 'tdmd', 'arr'])
 
 
@@ -672,7 +703,7 @@ FOLLOWUPS = ['ortho_left', 'ortho_right', 'ortho_left_partial', 'ortho_trunc', '
 PRODUCERS = ['add', 'sub', 'lmul', 'rmul', 'matmul_op_vec', 'matmul_op_op', 'tensordot_last-first', 'tensordot_last-last',
              'tensordot_first-last', 'tensordot_first-first', 'tensordot_complete_self', 'rank_tensordot', 'concatenate_tt', 'concatenate_list',
              'transpose', 'conj', 'rank_transpose', 'copy', 'diag', 'squeeze', 'tt2qtt', 'qtt2tt', 'svd', 'pinv', 'evp_nev2', 'sle_als', 'tdvp1site',
-             'explicit_euler', 'tdmd_standard', 'overwrite_targets']
+             'explicit_euler', 'tdmd_standard', 'overwrite_targets', 'constructors']
 CROSS_CASES = [{'producer': p, 'layout': l, 'followup': f} for p in PRODUCERS for l in LAYOUTS for f in FOLLOWUPS]
 
 
@@ -801,6 +832,20 @@ def prepare(p, layout, rng, dims):
     if p == 'pinv':
         return ops, lambda: [a.pinv(1, threshold=1e-12), a.pinv(2, threshold=1e-12, ortho_l=False, ortho_r=False),
                              a.pinv(2, threshold=1e-12, ortho_r=False), a.pinv(1, ortho_l=False)]
+    if p == 'constructors':
+        # every call of a constructor is documented to build a tensor train: two calls with equal arguments are two distinct
+        # live results (neither the same object nor sharing memory), whatever happened to the first one in between
+        import scikit_tt.tensor_train as ttm
+        d = len(dims)
+
+        def f():
+            out = []
+            for _ in range(2):
+                out += [ttm.eye(list(dims)), ttm.zeros(list(dims), [1] * d), ttm.ones(list(dims), [1] * d), ttm.unit(list(dims), [0] * d),
+                        ttm.uniform(list(dims)), ttm.zeros(list(dims), list(dims), 2), ttm.ones(list(dims), list(dims), 2),
+                        ttm.uniform(list(dims), ranks=2)]
+            return out
+        return ops, f
     if p == 'overwrite_targets':
         # overwrite=True keeps self alive as the working object: self and everything returned are distinct live objects
         def f():
@@ -870,6 +915,11 @@ def body_cross(c):
         if msg:
             raise Violation('operand_changed', '%s: the call itself changed operand %r: %s' % (p, k, msg))
     results = [r for r in res if isinstance(r, TT)]
+    if p == 'constructors':
+        for i in range(len(results)):
+            for j in range(i + 1, len(results)):
+                if results[i] is results[j]:
+                    raise Violation('sibling_result_changed', 'two constructor calls returned the same object (results %d and %d)' % (i, j))
     for r in results:
         cm = dense.consistent(r)
         if cm:
@@ -882,6 +932,8 @@ def body_cross(c):
     # (2) in-place follow-ups on each result must not change operands or sibling results
     for ri, r in enumerate(results):
         others = [(j, q, build.snapshot(q)) for j, q in enumerate(results) if q is not r]
+        if p == 'constructors' and not np.any([np.any(c_) for c_ in r.cores]):
+            continue       # truncating sweeps on an exactly zero tensor are outside the domain (relative cut of a zero spectrum)
         with contextlib.redirect_stdout(io.StringIO()):
             try:
                 ok = apply_followup(r, fu)
